@@ -4,7 +4,7 @@
    (Frame headers, join payloads and CFList: see the C06 part of Frame/FrameSpecProofs.v.) *)
 From Coq Require Import List NArith ZArith Bool.
 From LW Require Import Base.Outcome Base.Bytes Mac.Commands Mac.Spec Mac.Stream
-     Mac.RegistryProofs Mac.DecProofs Mac.EncProofs Mac.PackProofs Frame.Model Frame.WireSpec Frame.WireSpecProofs.
+     Mac.RegistryProofs Mac.DecProofs Mac.EncProofs Mac.PackProofs Frame.Model Frame.WireSpec Frame.WireSpecProofs Frame.CFListSpecProofs.
 From LWGen Require Import RegistryGen.
 Import ListNotations.
 Open Scope N_scope.
@@ -109,9 +109,17 @@ Theorem C06_fhdr : forall h opts,
   fhdr_marshal h = Ok (spec_fhdr h opts).
 Proof. exact fhdr_is_spec. Qed.
 Print Assumptions C06_fhdr.
-(* CFList (both kinds) is compared with its layout on every
-   generated case by the correspondence run (Frame/WireSpec.v frame_spec_bytes); their decode
-   direction is part of C01_roundtrip / C08_canonical. *)
+(* CFList: 5 x 24-bit frequencies / 100 Hz + type 0, or up to 6 x 16-bit channel masks (7th RFU) + type 1 *)
+Theorem C06_cflist_channels : forall chs b,
+  spec_cflist (mkCFList (CFPChannels chs) 0) = Some b -> cflist_marshal (mkCFList (CFPChannels chs) 0) = Ok b.
+Proof. exact cflist_channels_is_spec. Qed.
+Print Assumptions C06_cflist_channels.
+
+Theorem C06_cflist_masks : forall ms b,
+  spec_cflist (mkCFList (CFPMasks ms) 1) = Some b -> cflist_marshal (mkCFList (CFPMasks ms) 1) = Ok b.
+Proof. exact cflist_masks_is_spec. Qed.
+Print Assumptions C06_cflist_masks.
+(* The decode direction of frame headers, join payloads and CFList is C01_roundtrip / C08_canonical. *)
 
 (* non-vacuity: an in-range LinkADRReq meets the hypotheses and has the expected bytes *)
 Example C06_example :
